@@ -16,16 +16,38 @@ pub uninterp spec fn spec_join(dir: Seq<char>, name: Seq<char>) -> Seq<char>;
 pub struct VxPath { _p: u8 }
 pub trait VxPathText { spec fn t(&self) -> Seq<char>; }
 impl VxPathText for VxPath { open spec fn t(&self) -> Seq<char> { self.text() } }
-impl VxPathText for &VxPath { open spec fn t(&self) -> Seq<char> { (**self).text() } }
+impl VxPathText for String { open spec fn t(&self) -> Seq<char> { self@ } }
+impl VxPathText for str { open spec fn t(&self) -> Seq<char> { self@ } }
+impl<T: VxPathText + ?Sized> VxPathText for &T { open spec fn t(&self) -> Seq<char> { (**self).t() } }
+pub type PathBuf = VxPath;
+// Path::to_string_lossy(): the text (Cow<str>)
+#[verifier::external_body]
+pub struct VxCow { _p: u8 }
+impl VxCow {
+    pub uninterp spec fn text(&self) -> Seq<char>;
+    #[verifier::external_body]
+    pub fn into_owned(self) -> (r: String) ensures r@ == self.text() { unimplemented!() }
+    #[verifier::external_body]
+    pub fn to_string(&self) -> (r: String) ensures r@ == self.text() { unimplemented!() }
+    #[verifier::external_body]
+    pub fn as_ref(&self) -> (r: &str) ensures r@ == self.text() { unimplemented!() }
+}
 impl VxPath {
     pub uninterp spec fn text(&self) -> Seq<char>;
     #[verifier::external_body]
     pub fn join<T: VxPathText>(&self, name: T) -> (r: VxPath) ensures r.text() == spec_join(self.text(), name.t()) { unimplemented!() }
     #[verifier::external_body]
     pub fn parent(&self) -> (r: Option<VxPath>) { unimplemented!() }
-    // PathBuf::from(&String)
+    // PathBuf::from(text)
     #[verifier::external_body]
-    pub fn from_string(s: &String) -> (r: VxPath) ensures r.text() == s@ { unimplemented!() }
+    pub fn from<T: VxPathText>(s: T) -> (r: VxPath) ensures r.text() == s.t() { unimplemented!() }
+    #[verifier::external_body]
+    pub fn to_string_lossy(&self) -> (r: VxCow) ensures r.text() == self.text() { unimplemented!() }
+    // Path::ends_with / starts_with: component-wise suffix / prefix tests - NOT equality
+    #[verifier::external_body]
+    pub fn ends_with<T: VxPathText>(&self, s: T) -> (r: bool) { unimplemented!() }
+    #[verifier::external_body]
+    pub fn starts_with<T: VxPathText>(&self, s: T) -> (r: bool) { unimplemented!() }
 }
 // a member of the archive: its recorded name, its bytes, its kind
 pub struct VxMember { pub name: Seq<char>, pub bytes: Seq<u8> }
@@ -51,7 +73,7 @@ impl VxZipFile {
     pub fn enclosed_name(&self) -> (r: Option<VxPath>) ensures r is Some ==> spec_enclosed(r->Some_0.text()) && r->Some_0.text() == self.member().name { unimplemented!() }
     // ZipFile::name() / mangled_name(): the recorded name as it is (no such guarantee) - not used by the text as it stands
     #[verifier::external_body]
-    pub fn name(&self) -> (r: VxPath) ensures r.text() == self.member().name { unimplemented!() }
+    pub fn name(&self) -> (r: &str) ensures r@ == self.member().name { unimplemented!() }
     #[verifier::external_body]
     pub fn mangled_name(&self) -> (r: VxPath) { unimplemented!() }
     #[verifier::external_body]
@@ -95,14 +117,17 @@ impl VxCancel {
 // rename_map: HashMap<String, String> (member name -> name to extract it under); files_filter: the member names wanted
 #[verifier::external_body]
 pub struct VxRenameMap { _p: u8 }
-impl VxRenameMap { pub uninterp spec fn m(&self) -> Map<Seq<char>, Seq<char>>; }
-#[verifier::external_body]
-pub fn vx_rename_get<'a>(rm: &'a VxRenameMap, name: &VxPath) -> (r: Option<&'a String>)
-    ensures r is Some <==> rm.m().dom().contains(name.text()), r is Some ==> r->Some_0@ == rm.m()[name.text()],
-{ unimplemented!() }
+impl VxRenameMap {
+    pub uninterp spec fn m(&self) -> Map<Seq<char>, Seq<char>>;
+    #[verifier::external_body]
+    pub fn get<K: VxPathText>(&self, name: K) -> (r: Option<&String>)
+        ensures r is Some <==> self.m().dom().contains(name.t()), r is Some ==> r->Some_0@ == self.m()[name.t()],
+    { unimplemented!() }
+}
 pub open spec fn filter_has(files: Seq<String>, n: Seq<char>) -> bool { exists|j: int| 0 <= j < files.len() && (#[trigger] files[j])@ == n }
+// `files.iter().any(|f| *f == <the member's name as text>)`
 #[verifier::external_body]
-pub fn vx_filter_has(files: &Vec<String>, name: &VxPath) -> (r: bool) ensures r == filter_has(files@, name.text()) { unimplemented!() }
+pub fn vx_filter_has<T: VxPathText>(files: &Vec<String>, name: T) -> (r: bool) ensures r == filter_has(files@, name.t()) { unimplemented!() }
 
 // ---------- what the loop may do ----------
 // every file written in this call: inside the target directory, with the bytes of a member of the archive whose recorded name is safe
@@ -134,14 +159,13 @@ pub proof fn lemma_extract_push(fs0: Seq<VxWrite>, fs_a: Seq<VxWrite>, ex0: Seq<
 //@ extract src/utils/unzip.rs region `for i in 0..zip_archive.len() {` .. `for i in 0..zip_archive.len() {` in fn extract_to_dir
 //@   sig #[verifier::loop_isolation(false)] pub fn extract_zip_members(zip_archive: &mut VxZip, files_filter: Option<Vec<String>>, rename_map: &VxRenameMap, target_dir: &VxPath, shall_cancel: &VxCancel, vx_fs: &mut VxFs, mut extracted: Vec<VxPath>) -> (r: Result<Vec<VxPath>, std::io::Error>)
 //@   tail `Ok(extracted)`
-//@   sub R13 `for i in 0..zip_archive.len() {` => `let mut vx_i: usize = 0; let vx_n: usize = zip_archive.len(); while vx_i < vx_n { let i = vx_i; vx_i += 1;`
+//@   sub R13 `for i in 0..zip_archive.len() {` => `let mut vx_i: usize = 0; let vx_n: usize = zip_archive.len(); while vx_i < vx_n { let i = vx_i; vx_i += 1; let ghost fs_a = vx_fs.writes(); let ghost ex_a = extracted@;`
 //@   sub R12 `Ordering::Relaxed` => `VxOrdering::Relaxed`
-//@   sub R11 `files.iter().any(|f| *f == file_name.to_string_lossy())` => `vx_filter_has(files, &file_name)` ?
-//@   sub R12 `std::fs::create_dir_all(target_dir)?` => `vx_fs.create_dir_all(target_dir)?` *
-//@   sub R11 `rename_map.get(file_name.to_string_lossy().as_ref())` => `vx_rename_get(rename_map, &file_name)` ?
-//@   sub R12 `PathBuf::from(&new_file_name)` => `VxPath::from_string(new_file_name)` ?
-//@   sub R12 `std::fs::File::create(target_file)?` => `vx_fs.create(target_file)?` ?
-//@   sub R12 `cancelable_copy(&mut file, &mut target_file, shall_cancel)?` => `vx_fs.copy_into(&mut file, &mut target_file, shall_cancel)?` ?
+//@   sub R11 `_id_.iter().any(|_id_| *_id_ == _id_.to_string_lossy())` => `vx_filter_has($1, &$4)` ?
+//@   sub R11 `_id_.iter().any(|_id_| *_id_ == _id_)` => `vx_filter_has($1, &$4)` ?
+//@   sub R12 `std::fs::create_dir_all(__)?` => `vx_fs.create_dir_all($1)?` *
+//@   sub R12 `std::fs::File::create(__)?` => `vx_fs.create($1)?` ?
+//@   sub R12 `cancelable_copy(__)?` => `vx_fs.copy_into($1)?` ?
 //@   spec
 //@|    requires
 //@|        forall|k: Seq<char>| old(zip_archive).members().len() >= 0 && #[trigger] rename_map.m().dom().contains(k) ==> spec_enclosed(rename_map.m()[k]), // the rename map is built by the caller from names it chose
@@ -152,13 +176,10 @@ pub proof fn lemma_extract_push(fs0: Seq<VxWrite>, fs_a: Seq<VxWrite>, ex0: Seq<
 //@|    let ghost ex0 = extracted@;
 //@|    let ghost zip0 = zip_archive.members();
 //@|    let ghost dir0 = target_dir.text();   // (`target_dir` is shadowed further down)
-//@   hint before `if let Some(target_dir) = target_file.parent() {`
-//@|    let ghost fs_a = vx_fs.writes();
-//@|    let ghost ex_a = extracted@;
-//@   hint after `extracted.push(new_file_name);`
+//@   hint loopend 1
 //@|    proof {
 //@|        // (conditional: a body that writes something else gets no help from the lemma and fails the tagged invariant itself)
-//@|        if vx_fs.writes() == fs_a.push(vx_fs.writes().last()) && extracted@ == ex_a.push(extracted@.last())
+//@|        if vx_fs.writes().len() == fs_a.len() + 1 && vx_fs.writes() == fs_a.push(vx_fs.writes().last()) && extracted@ == ex_a.push(extracted@.last())
 //@|            && write_ok(vx_fs.writes().last(), dir0, zip0, files_filter, rename_map.m(), extracted@.last().text()) {
 //@|            lemma_extract_push(fs0, fs_a, ex0, ex_a, dir0, zip0, files_filter, rename_map.m(), vx_fs.writes().last(), extracted@.last());
 //@|        }
